@@ -46,6 +46,22 @@ def c_content(nodes, atts, names) -> str:
     return f'mkGC {N} {A}, {M}'
 
 
+LOAD_IMPORTS = 'Prelude Graph GraphOps Codec ModelIO GraphIO GraphLoad GraphLoadThm'
+LOAD_TYPE = 'jv * bool * bool * gcontent * jv'
+LOAD_CHECK = 'Definition check (c : jv * bool * bool * gcontent * jv) : bool := gload_check c.'
+
+
+def graph_record_obs(g):
+    """GraphOps.obs_graph of a loaded graph: handles are the positions in g.nodes / g.attackers."""
+    nh = {id(n): i for i, n in enumerate(g.nodes)}
+    ah = {id(a): i for i, a in enumerate(g.attackers)}
+    return [[nh[id(n)] for n in g.nodes], [ah[id(a)] for a in g.attackers],
+            [[k, nh.get(id(v), -1)] for k, v in sorted(g._id_to_node.items())],
+            [[k, nh.get(id(v), -1)] for k, v in sorted(g._full_name_to_node.items(), key=lambda kv: C.skey(kv[0]))],
+            [[k, ah.get(id(v), -1)] for k, v in sorted(g._id_to_attacker.items())],
+            g.next_node_id, g.next_attacker_id]
+
+
 def typed_view(g):
     """What C10 says must be preserved, with Python types."""
     nodes = {}
@@ -98,6 +114,8 @@ def add_model_attackers(impl, rng, m, lg):
             if m.assets:
                 a = rng.choice(m.assets)
                 steps = [s.name for s in lg.get_asset_by_name(str(a.type)).attack_steps]
+                if steps and rng.random() < 0.15:
+                    t.add_entry_point(a, 'nosuchstep')        # tolerated by attach_attackers: warned about and skipped
                 if steps:
                     t.add_entry_point(a, rng.choice(steps))
         m.add_attacker(t)
@@ -106,7 +124,7 @@ def add_model_attackers(impl, rng, m, lg):
 def check(pid: str, tier: str, seed: int):
     t0 = time.time()
     rng = random.Random(seed * 67867967 + 10)
-    violations, cases, metas = [], [], []
+    violations, cases, metas, lcases = [], [], [], []
     configs = {}
     with C.Scratch() as scratch:
         impl = C.import_impl()
@@ -145,7 +163,10 @@ def check(pid: str, tier: str, seed: int):
                         g2 = AttackGraph.load_from_file(fn, m if with_model else None)
                     except Exception as e:
                         pv.append(f'loading the saved .{ext} file ({key}) raised {type(e).__name__}')
+                        lcases.append(f'({C.cjv(doc)}, {C.cbool(with_model)}, false, mkGC [] [], JNull)')
                         continue
+                    ln, la, _ = content_of(g2)
+                    lcases.append(f'({C.cjv(doc)}, {C.cbool(with_model)}, true, {c_content(ln, la, []).rsplit(", ", 1)[0]}, {C.cjv(graph_record_obs(g2))})')
                     got = typed_view(g2)
                     if not with_model:
                         # without the model nodes have no asset: the full name is id:name
@@ -172,6 +193,8 @@ def check(pid: str, tier: str, seed: int):
                 os.remove(fn)
             metas.append({'lang_assets': [a['name'] for a in L['assets']], 'nodes': nodes, 'atts': atts, 'prop_viol': pv})
         bad, counters, errors = C.run_cases(pid, IMPORTS, CASE_TYPE, CHECK_DEF, cases, None, shard=40)
+        lbad, lcounters, lerrors = C.run_cases(pid + 'L', LOAD_IMPORTS, LOAD_TYPE, LOAD_CHECK, lcases, {'GLOADABLE': 'count_true gloadable_doc cases'}, shard=40)
+        errors = errors + lerrors
     if errors:
         violations.append({'message': 'the correspondence could not be evaluated', 'cause': 'coq-error',
                            'correspondence': 'corr_C10_gencode_gdecode', 'errors': errors[:3]})
@@ -181,23 +204,23 @@ def check(pid: str, tier: str, seed: int):
         violations.append({'message': m['prop_viol'][0], 'cause': m['prop_viol'][0], 'failing_input_found': True,
                            'nodes': m['nodes'], 'attackers': m['atts'], 'all_violations': sorted(set(m['prop_viol'])),
                            'cases_violating': len(propbad)})
-    elif bad:
+    elif bad or lbad:
         violations.append({'message': 'implementation and model disagree; no input found on which the property itself fails',
-                           'cause': 'model-mismatch', 'correspondence': 'corr_C10_gencode_gdecode (GraphIO.gencode / gdecode)',
-                           'case_index': bad[0], 'mismatching_cases': len(bad)})
+                           'cause': 'model-mismatch', 'correspondence': 'corr_C10_gencode_gdecode (GraphIO.gencode / gdecode) / corr_C10_load (GraphLoad.gload)',
+                           'case_index': (bad or lbad)[0], 'mismatching_cases': len(bad) + len(lbad), 'by_stream': {'document': len(bad), 'rebuild': len(lbad)}})
     nontriv = {json.dumps([m['nodes'], m['atts']], sort_keys=True, default=str) for m in metas
                if m['atts'] and any(n['children'] for n in m['nodes'])}
-    cov = {'evaluations': len(cases), 'distinct_nontrivial': len(nontriv),
+    cov = {'evaluations': len(cases) + len(lcases), 'distinct_nontrivial': len(nontriv), 'rebuild_cases': len(lcases), 'rebuild_cases_loadable': lcounters.get('GLOADABLE', 0),
            'rule': 'attack graphs generated from seeded random languages and models with model attackers attached, then compromise / undo, '
                    'analysis, pruning, node extras, tags, node removal; saved to .json and .yml, loaded with and without the model; '
                    'non-trivial = the graph has attackers and edges; distinct by content',
-           'samples': [metas[0]['nodes'][:2]] if metas else [], 'configurations': configs, 'mismatches': len(bad), 'exhaustive': False}
+           'samples': [metas[0]['nodes'][:2]] if metas else [], 'configurations': configs, 'mismatches': len(bad) + len(lbad), 'exhaustive': False}
     return {'violations': violations, 'coverage': cov,
             'trusted': ['json / PyYAML turn a value tree into text and back; integer keys become strings in JSON (H-codec)',
                         'float(str(x)) = x on the defense values used (k/4; GraphIO.fstr_tab / fparse_tab)'],
             'assumptions': ['full names are unique (C02 / C05) — the serialized form keys nodes by full name',
-                            'the loader rebuilding nodes, links and attackers from the decoded content through add_node / add_attacker is '
-                            'covered by C09 / C11 and by this run on real files, not by a separate theorem',
+                            'every document written for a graph of the run meets the premise of the rebuild theorem (GLoadable; counted: '
+                            'rebuild_cases_loadable)',
                             'theorems are about the Gallina model; the model is tied to the code by this run only']}
 
 
